@@ -453,6 +453,13 @@ def gen_lrtables():
     except Exception:
         tuple_is_tuple = False
 
+    weight_to_float = False
+    try:
+        a = parse_source('def e { return "a" weighted 3 }')
+        weight_to_float = type(a.conditions[0].group_weight) is float
+    except Exception:
+        pass
+
     lines = [
         "/- GENERATED by tools/translate.py from /repo — do not edit -/",
         "import Pyab.Model.Parser",
@@ -491,10 +498,12 @@ def gen_lrtables():
         "smartUnionTerm": smart(st.TerminalPredicate),
         "smartUnionGroup": smart(st.ExperimentGroup),
         "tupleIsTuple": tuple_is_tuple,
+        "weightToFloat": weight_to_float,
     }
     b = lambda x: "true" if x else "false"
-    lines.append("def lrTables : LRTables := ⟨lrAction, lrGoto, lrDefaulted, lrProds, %s, %s, %s, %s⟩" % (
-        b(flags["errorRaises"]), b(flags["smartUnionTerm"]), b(flags["smartUnionGroup"]), b(flags["tupleIsTuple"])))
+    lines.append("def lrTables : LRTables := ⟨lrAction, lrGoto, lrDefaulted, lrProds, %s, %s, %s, %s, %s⟩" % (
+        b(flags["errorRaises"]), b(flags["smartUnionTerm"]), b(flags["smartUnionGroup"]), b(flags["tupleIsTuple"]),
+        b(flags["weightToFloat"])))
     lines.append("")
     lines.append("end Pyab.Generated")
     summ = dict(flags)
